@@ -51,7 +51,9 @@ def render(name, atoms, numbers, edges, sections, rng, style):
             out.append('#include "other.itp"')
         elif k == 5:
             out.append(str(rng.choice(["; b0 [nm]  kb [kJ]", ";[ exclusions ]", "; see ref. [12]", " ; [ bonds ] kept for reference",
-                                       ";[pairs]"])))
+                                       ";[pairs]", "; old entry\x0c%d %d 1" % (numbers[0], numbers[-1]),
+                                       "; removed\u2028%d %d 1 0.1 1000" % (numbers[-1], numbers[0]), "; vt\x0b9 CT 1 XXX Q9 9 0.0",
+                                       "; nel\x85%d %d 1" % (numbers[0], numbers[-1])])))
 
     out = []
     if style["header"]:
